@@ -47,72 +47,182 @@ STATUS_TYPE = "bool * Q * list string * mresult * (status * option Q * nat)"
 LP_METHODS = ["auto", "linprog", "highs", "highs-ds", "highs-ipm"]
 
 
-def reference_lp(P):
-    """Matrix form assembled from evaluate() only (never from optyx's extraction)."""
-    V = P.variables
+def lin_of(e, V):
+    """(row, constant) of an affine expression, from evaluate() only (never from optyx's extraction)."""
     n = len(V)
     zero = {v.name: 0.0 for v in V}
-    def lin(e):
-        c0 = float(e.evaluate(zero))
-        row = np.zeros(n)
-        for j, v in enumerate(V):
-            pt = dict(zero); pt[v.name] = 1.0
-            row[j] = float(e.evaluate(pt)) - c0
-        return row, c0
-    c, c0 = lin(P.objective)
-    Aub, bub, Aeq, beq = [], [], [], []
-    for con in P.constraints:
-        row, k = lin(con.expr)
-        if con.sense == "<=":
-            Aub.append(row); bub.append(-k)
-        elif con.sense == ">=":
-            Aub.append(-row); bub.append(k)
-        else:
-            Aeq.append(row); beq.append(-k)
-    bounds = [(v.lb, v.ub) for v in V]
-    return c, c0, (np.array(Aub) if Aub else None), (np.array(bub) if bub else None), \
-        (np.array(Aeq) if Aeq else None), (np.array(beq) if beq else None), bounds
+    c0 = float(e.evaluate(zero))
+    row = np.zeros(n)
+    for j, v in enumerate(V):
+        pt = dict(zero); pt[v.name] = 1.0
+        row[j] = float(e.evaluate(pt)) - c0
+    return row, c0
+
+
+class RefLP:
+    """The user's model as the harness understands it.  Every objective / constraint is read ONCE, by
+    evaluate(), at the moment it is handed to the Problem - before any solve can have touched it - and
+    kept as (name -> coefficient) so that later changes of the variable list do not matter."""
+
+    def __init__(self):
+        self.obj = None
+        self.mx = False
+        self.rows = []
+
+    @staticmethod
+    def _read(e):
+        vs = sorted(e.get_variables(), key=lambda v: common.natkey(v.name))
+        row, c0 = lin_of(e, vs)
+        return {v.name: float(row[i]) for i, v in enumerate(vs)}, c0
+
+    def objective(self, e, mx):
+        self.obj, self.mx = self._read(e), mx
+
+    def sense(self, mx):
+        self.mx = mx
+
+    def constraint(self, con):
+        self.rows.append((self._read(con.expr), con.sense))
+
+    def matrices(self, V):
+        idx = {v.name: j for j, v in enumerate(V)}
+        def dense(coefs):
+            row = np.zeros(len(V))
+            for nme, c in coefs.items():
+                row[idx[nme]] = c
+            return row
+        c, c0 = dense(self.obj[0]), self.obj[1]
+        Aub, bub, Aeq, beq = [], [], [], []
+        for (coefs, k), sense in self.rows:
+            row = dense(coefs)
+            if sense == "<=":
+                Aub.append(row); bub.append(-k)
+            elif sense == ">=":
+                Aub.append(-row); bub.append(k)
+            else:
+                Aeq.append(row); beq.append(-k)
+        bounds = [(v.lb, v.ub) for v in V]
+        return c, c0, (np.array(Aub) if Aub else None), (np.array(bub) if bub else None), \
+            (np.array(Aeq) if Aeq else None), (np.array(beq) if beq else None), bounds
+
+
+def vec_views(x, r):
+    """Views covering the whole vector in and out of order, and partial ones."""
+    n = x.size
+    vs = [x, x[:], x[::-1], x[0:n]]
+    if n >= 2:
+        vs += [x[0:n - 1], x[1:n], x[::2]]
+    return vs
 
 
 def gen_lp(g: gen.Gen, r, kind):
+    """Returns (P, mx, ref, arrays): arrays are the user's NumPy coefficient arrays with pristine copies."""
     from optyx import Problem
     x = g.pool.vectors[0]
     for v in x:
         v.lb, v.ub = None, None
     extra = g.pool.scalars[0]
     extra.lb, extra.ub = 0.0, 5.0
+    with_extra = r.random() < 0.5          # without it the vector covers ALL problem variables (O(1) extraction paths)
+    ex = (lambda k=1: extra * k) if with_extra else (lambda k=1: 0)
     n = x.size
-    cvec = np.array([float(r.choice([1, 2, -1, 3, 0.5])) for _ in range(n)])
-    style = r.randrange(4)
+    arrays = []
+    def arr(m):
+        a = np.array([float(r.choice([1, 2, -1, 3, 0.5, -2.5])) + 0.25 * j for j in range(m)])
+        arrays.append((a, a.copy()))
+        return a
+    style = r.randrange(6)
     if style == 0:
-        obj = cvec @ x + extra * r.choice([1, -2]) + r.choice([0, 5, -1.5])
+        obj = arr(n) @ x + ex(r.choice([1, -2])) + r.choice([0, 5, -1.5])
     elif style == 1:
-        obj = sum((float(cvec[i]) * x[i] for i in range(1, n)), float(cvec[0]) * x[0]) + extra + r.choice([0, 2.5])
+        cv = arr(n)
+        obj = sum((float(cv[i]) * x[i] for i in range(1, n)), float(cv[0]) * x[0]) + ex() + r.choice([0, 2.5])
     elif style == 2:
-        obj = cvec @ (x + 1) + (extra + 2) ** 1
+        obj = arr(n) @ (x + 1) + (ex() + 2) ** 1
+    elif style == 3:
+        obj = (2 + gen.Constant(1)) * x.sum() - ex() / 2 + 4
+    elif style == 4:
+        w = r.choice(vec_views(x, r))
+        obj = arr(w.size) @ w + r.choice([0, 3.5]) + ex()
     else:
-        obj = (2 + gen.Constant(1)) * x.sum() - extra / 2 + 4
+        w = x[::-1]
+        obj = w @ arr(n) - 2 + ex()
     mx = r.random() < 0.5
     P = Problem()
+    ref = RefLP()
+    ref.objective(obj, mx)
     (P.maximize if mx else P.minimize)(obj)
+    def add(c):
+        for one in (c if isinstance(c, list) else [c]):
+            ref.constraint(one)
+        P.subject_to(c)
     if kind in ("bounded", "degenerate"):
-        P.subject_to(x >= r.choice([0, -1]))
-        P.subject_to(x <= r.choice([3, 4]))
-        P.subject_to(x.sum() + extra <= 6)
+        add(x >= r.choice([0, -1]))
+        add(x <= r.choice([3, 4]))
+        add(x.sum() + ex() <= 6)
+        w = r.choice(vec_views(x, r))
+        cw = arr(w.size)
+        add(r.choice([lambda: cw @ w <= 7.5, lambda: cw @ w >= -9.25, lambda: (w @ cw) >= -8, lambda: cw @ w + 1 <= 9]) ())
         if kind == "degenerate":
-            P.subject_to(x.sum() + extra <= 6)          # duplicated row
-            P.subject_to((x[0] + extra).eq(2))
+            add(x.sum() + ex() <= 6)          # duplicated row
+            add((x[0] + ex()).eq(2))
     elif kind == "infeasible":
-        P.subject_to(x.sum() >= 5)
-        P.subject_to(x.sum() <= 1)
-        P.subject_to(x >= 0)
+        add(x.sum() >= 5)
+        add(x.sum() <= 1)
+        add(x >= 0)
     elif kind == "infeasible_bounds":
         x[0].lb, x[0].ub = 2.0, 3.0
-        P.subject_to(x[0] <= 1)
+        add(x[0] <= 1)
+    elif kind == "infeasible_zero_row":
+        # a row whose coefficients cancel: 0 >= 1 (false) next to 0 <= 1 (true) in an otherwise bounded model
+        add(x >= 0)
+        add(x <= 3)
+        z = np.zeros(n)
+        add(r.choice([lambda: z @ x >= 1, lambda: x[0] - x[0] >= 1, lambda: (x.sum() - x.sum()).eq(2), lambda: z @ x + 3 <= 1])())
+        add(z @ x <= 1)
     else:  # unbounded: a free direction that improves the objective
-        P.subject_to(x.sum() <= 10 if mx else x.sum() >= -10)
-        # make sure some coefficient pushes along the free direction
-    return P, mx
+        add(x.sum() <= 10 if mx else x.sum() >= -10)
+    return P, mx, ref, arrays
+
+
+def history_op(P, ref, g, r, arrays):
+    """One user-level edit between solves; the reference is edited alongside (new pieces are read before any solve)."""
+    x = g.pool.vectors[0]
+    n = x.size
+    def arr(m):
+        a = np.array([float(r.choice([1, 2, -1, 3, 0.5])) + 0.5 * j for j in range(m)])
+        arrays.append((a, a.copy()))
+        return a
+    k = r.randrange(6)
+    if k == 0:
+        w = r.choice(vec_views(x, r))
+        c = arr(w.size) @ w >= r.choice([-6.5, -3])
+        ref.constraint(c); P.subject_to(c)
+        return "subject_to(w@view >= k)"
+    if k == 1:
+        c = x.sum() <= r.choice([5, 4.5])
+        ref.constraint(c); P.subject_to(c)
+        return "subject_to(sum <= k)"
+    if k == 2:
+        obj = P.objective                 # the SAME object, other orientation
+        ref.sense(not ref.mx)
+        (P.maximize if ref.mx else P.minimize)(obj)
+        return "flip sense, same objective object"
+    if k == 3:
+        w = r.choice(vec_views(x, r))
+        obj = arr(w.size) @ w + r.choice([0, 1.5])
+        ref.objective(obj, ref.mx)
+        (P.maximize if ref.mx else P.minimize)(obj)
+        return "new objective"
+    if k == 4:
+        v = x[r.randrange(n)]
+        v.lb, v.ub = r.choice([(0.5, 2.0), (None, 2.5), (-1.0, None), (1.0, 1.0)])
+        return "bounds edit"
+    cs = [x[i] <= 2.75 for i in range(n)]
+    for c in cs:
+        ref.constraint(c)
+    P.subject_to(cs)
+    return "subject_to(list)"
 
 
 def run(rep: vk.Report):
@@ -124,17 +234,18 @@ def run(rep: vk.Report):
     NAME = {SolverStatus.OPTIMAL: "OPTIMAL", SolverStatus.INFEASIBLE: "INFEASIBLE", SolverStatus.UNBOUNDED: "UNBOUNDED",
             SolverStatus.MAX_ITERATIONS: "MAX_ITERATIONS", SolverStatus.FAILED: "FAILED"}
     REF = {0: "OPTIMAL", 1: "MAX_ITERATIONS", 2: "INFEASIBLE", 3: "UNBOUNDED", 4: "FAILED"}
-    n = 60 if rep.tier == "quick" else 2500
+    n = 120 if rep.tier == "quick" else 3000
     seam = Cases("linprog-seam", IMPORTS, SEAM_TYPE, SEAM_CHECKER, defs=DEFS)
     diffs = 0
     solved = 0
     verdicts = {}
     keep = []
+    histories = {}
     for i in range(n):
         r = random.Random(rng.random())
         g = gen.Gen(r, profile="poly", pool=gen.Pool(r, with_matrices=False))
-        kind = r.choice(["bounded", "bounded", "degenerate", "infeasible", "infeasible_bounds", "unbounded"])
-        P, mx = gen_lp(g, r, kind)
+        kind = r.choice(["bounded", "bounded", "degenerate", "infeasible", "infeasible_bounds", "infeasible_zero_row", "unbounded"])
+        P, mx, ref0, arrays = gen_lp(g, r, kind)
         if not (is_linear(P.objective) and all(is_linear(c.expr) for c in P.constraints)):
             continue
         meth = r.choice(LP_METHODS)
@@ -159,16 +270,17 @@ def run(rep: vk.Report):
                  f"{ser.lst('(' + oq(v.lb) + ', ' + oq(v.ub) + ')' for v in P.variables)})",
                  {"kind": kind, "method": meth, "maximize": mx}, kinds={kind, meth, "max" if mx else "min"})
         keep.append(P)
-        # differential with an independently assembled reference, solved twice
-        c, c0, Aub, bub, Aeq, beq, bounds = reference_lp(P)
-        ref_method = "highs" if meth in ("auto", "linprog") else meth
-        with warnings.catch_warnings():
-            warnings.simplefilter("ignore")
-            ref = sp_linprog(c=(-c if mx else c), A_ub=Aub, b_ub=bub, A_eq=Aeq, b_eq=beq, bounds=bounds, method=ref_method)
-            sols = [P.solve(method=meth), P.solve(method=meth)]
-        ref_status = "OPTIMAL" if ref.success else REF.get(ref.status, "FAILED")
-        ref_obj = None if ref.fun is None else (-float(ref.fun) if mx else float(ref.fun)) + c0
-        for rep_i, sol in enumerate(sols):
+        # differential with the independently kept reference: solved twice, then a history of edits, re-solved after each
+        def compare(tag, sol):
+            nonlocal diffs, solved
+            V_now = P.variables
+            c, c0, Aub, bub, Aeq, beq, bounds = ref0.matrices(V_now)
+            ref_method = "highs" if meth in ("auto", "linprog") else meth
+            with warnings.catch_warnings():
+                warnings.simplefilter("ignore")
+                ref = sp_linprog(c=(-c if ref0.mx else c), A_ub=Aub, b_ub=bub, A_eq=Aeq, b_eq=beq, bounds=bounds, method=ref_method)
+            ref_status = "OPTIMAL" if ref.success else REF.get(ref.status, "FAILED")
+            ref_obj = None if ref.fun is None else (-float(ref.fun) if ref0.mx else float(ref.fun)) + c0
             solved += 1
             verdicts[NAME[sol.status]] = verdicts.get(NAME[sol.status], 0) + 1
             bad = NAME[sol.status] != ref_status
@@ -178,9 +290,27 @@ def run(rep: vk.Report):
                 diffs += 1
                 rep.violation({"kind": "differential", "obligation": "same verdict and optimum as the independently assembled LP",
                                "witness": {"objective": repr(P.objective)[:400], "constraints": [repr(cn)[:200] for cn in P.constraints],
-                                           "bounds": [(v.name, v.lb, v.ub) for v in P.variables], "maximize": mx, "method": meth,
-                                           "solve_number": rep_i + 1, "optyx": [NAME[sol.status], sol.objective_value],
+                                           "bounds": [(v.name, v.lb, v.ub) for v in P.variables], "maximize": ref0.mx, "method": meth,
+                                           "history": list(hist), "at": tag, "optyx": [NAME[sol.status], sol.objective_value],
                                            "reference": [ref_status, ref_obj]}}, concrete=True)
+            for a_now, a_orig in arrays:
+                if not np.array_equal(a_now, a_orig):
+                    diffs += 1
+                    rep.violation({"kind": "differential", "obligation": "solving does not modify the user's coefficient arrays (the model stays the one written)",
+                                   "witness": {"objective": repr(P.objective)[:300], "history": list(hist), "at": tag,
+                                               "array_now": a_now.tolist(), "array_as_written": a_orig.tolist()}}, concrete=True)
+                    a_now[:] = a_orig
+        hist = []
+        with warnings.catch_warnings():
+            warnings.simplefilter("ignore")
+            compare("solve 1", P.solve(method=meth))
+            compare("solve 2", P.solve(method=meth))
+            for step in range(r.randint(1, 3)):
+                hist.append(history_op(P, ref0, g, r, arrays))
+                histories[hist[-1]] = histories.get(hist[-1], 0) + 1
+                if not (is_linear(P.objective) and all(is_linear(c.expr) for c in P.constraints)):
+                    break
+                compare(f"after edit {step + 1}", P.solve(method=meth))
     sfails = seam.run(shard=100)
     for i in sfails:
         wit = c05.point_identity_witness(keep[i], keep[i]._lp_cache, rng) if keep[i]._lp_cache is not None else None
@@ -212,9 +342,12 @@ def run(rep: vk.Report):
     cov["distinct_nontrivial"] = seam.nontrivial + stat.nontrivial
     cov["rule"] = ("generated LPs (bounded, degenerate, infeasible by rows, infeasible by bounds, unbounded) written in 4 API styles, both "
                    "orientations, 5 methods: seam arguments compared exactly with the model, every problem solved twice and compared with "
-                   "real linprog on an independently assembled matrix form; status map enumerated exhaustively (200 scripted results)")
+                   "real linprog on a matrix form kept independently (each objective/constraint read once by evaluate() when handed over), then "
+                   "edited 1-3 times (constraints added singly / as lists / over permuted views, orientation flipped with the same objective "
+                   "object, objective replaced, bounds edited) and re-solved after each edit; user coefficient arrays checked unmodified; status map enumerated exhaustively (200 scripted results)")
     cov["samples"] = [seam.terms[0][:500], stat.terms[7][:300]]
     cov["verdict_histogram"] = verdicts
+    cov["history_edits"] = histories
     cov["differential_solves"] = solved
     cov["differential_disagreements"] = diffs
     cov["status_map_cases"] = len(stat.terms)
